@@ -121,9 +121,22 @@ func (d *drv) observe(lvl int, fdDirty bool, seq int) []VLine {
 	if lvl >= 1 {
 		bits[6] = false
 		if jerr == nil {
+			// the reload goes through FromJSON or (every other observation) through json.Unmarshal, i.e.
+			// UnmarshalJSON; the fresh container comes from the comparator-less constructor when the
+			// configuration is the natural order
 			fresh := newFresh(d)
-			if err := fresh.c.FromJSON(js); err == nil {
+			var err error
+			if seq%2 == 0 {
+				err = fresh.c.FromJSON(js)
+			} else {
+				err = json.Unmarshal(js, fresh.c)
+			}
+			if err == nil {
 				bits[6] = sameVector(k, core, fresh.observeCore(lvl))
+			}
+			// lists and sets: the variadic constructor applied to Values() gives an equal container
+			if rb := rebuilt(d); rb != nil && bits[6] {
+				bits[6] = sameVector(k, core, rb.observeCore(lvl))
 			}
 		}
 	}
